@@ -61,7 +61,19 @@ pub fn run(ctx: &mut Ctx) {
                         (fl, ((c.sw as f64 - fl) * (0.2 + 0.8 * rng.unit())).max(0.01))
                     };
                     c.crop = Crop::Box([fl, t as f64, fw, ch as f64]);
-                    if c.dw as f64 == fw && fl == fl.round() {
+                    if rng.chance(1, 5) && c.sw.min(c.sh) >= 3 {
+                        // everything square (source, box, destination), only the origin differs between the axes: a pure sub-pixel
+                        // shift along x, nothing to do along y
+                        let side = c.sw.min(c.sh);
+                        c.sw = side;
+                        c.sh = side;
+                        let q = rng.range(1, (side - 1) as u64) as u32;
+                        let tt = rng.below((side - q) as u64 + 1) as u32;
+                        let fl = (rng.below((side - q) as u64) as f64 + *rng.pick(&[0.5, 0.25, 0.125, 0.7])).min((side - q) as f64);
+                        c.crop = Crop::Box([fl, tt as f64, q as f64, q as f64]);
+                        c.dw = q;
+                        c.dh = q;
+                    } else if c.dw as f64 == fw && fl == fl.round() {
                         c.dw += 1;
                     }
                     if c.alg == Alg::Nearest {
@@ -75,7 +87,17 @@ pub fn run(ctx: &mut Ctx) {
                         (ft, ((c.sh as f64 - ft) * (0.2 + 0.8 * rng.unit())).max(0.01))
                     };
                     c.crop = Crop::Box([l as f64, ft, cw as f64, fh]);
-                    if c.dh as f64 == fh && ft == ft.round() {
+                    if rng.chance(1, 5) && c.sw.min(c.sh) >= 3 {
+                        let side = c.sw.min(c.sh);
+                        c.sw = side;
+                        c.sh = side;
+                        let q = rng.range(1, (side - 1) as u64) as u32;
+                        let ll = rng.below((side - q) as u64 + 1) as u32;
+                        let ft = (rng.below((side - q) as u64) as f64 + *rng.pick(&[0.5, 0.25, 0.125, 0.7])).min((side - q) as f64);
+                        c.crop = Crop::Box([ll as f64, ft, q as f64, q as f64]);
+                        c.dw = q;
+                        c.dh = q;
+                    } else if c.dh as f64 == fh && ft == ft.round() {
                         c.dh += 1;
                     }
                     if c.alg == Alg::Nearest {
